@@ -42,9 +42,12 @@ struct Opts {
     unwrap_default: bool,
     letanchors: Vec<String>, // local names after whose `let` an `after_let NAME K` anchor is emitted
     fieldty: Vec<(String, String)>, // struct take: replace the type of a field (R4 for `dyn Fn` fields)
+    copy: bool,             // struct/enum take: keep derive(Clone, Copy) when the original derives both (R8 keeps no other derive)
     structural: bool,       // struct/enum take: re-emit derive(PartialEq, Eq) as derive(Structural, PartialEq, Eq) when the original derives both
     modfn: Vec<(String, String)>, // R24: module-qualified callee -> distinct emitted name
     optmap: bool,           // R32: `X.map(|p| IO)` in this take is Option::map
+    anf: bool,              // R38: call / closure arguments of the tail call are bound to locals first (left to right, inner calls before outer: Rust's evaluation order), so that proof text can name them
+    dropnested: bool,       // R35: nested `fn` items are removed from the body (each is taken separately with `:: nested fn NAME` and emitted at module level; nested fns cannot capture)
     r28: bool,              // R28: `X.and_then(|p| BODY)` with I/O in BODY -> `match X { Ok(p) => BODY, Err(e) => Err(e) }`
     mac_for: Option<(String, String)>, // macro instantiation: use the invocation whose metavariable .0 equals .1
     anchors: Vec<String>,   // callee names after whose enclosing statement an `after_call NAME K` anchor is emitted
@@ -79,9 +82,12 @@ fn parse_opts(s: &str) -> Opts {
             "nofmt" => o.nofmt = true,
             "anchors" => o.anchors = list(),
             "r28" => o.r28 = true,
+            "dropnested" => o.dropnested = true,
+            "anf" => o.anf = true,
             "optmap" => o.optmap = true,
             "modfn" => o.modfn = v.split(';').filter_map(|kv| kv.rsplit_once(':').map(|(a, b)| (a.to_string(), b.to_string()))).collect(),
             "structural" => o.structural = true,
+            "copy" => o.copy = true,
             "mac_for" => o.mac_for = v.split_once(':').map(|(a, b)| (a.to_string(), b.to_string())),
             "fieldty" => o.fieldty = list().iter().filter_map(|x| x.split_once(':').map(|(a, b)| (a.to_string(), b.to_string()))).collect(),
             "letanchors" => o.letanchors = list(),
@@ -183,6 +189,7 @@ impl Rw {
             let decision = match &s {
                 Stmt::Local(l) => cfg_of(&l.attrs),
                 Stmt::Item(Item::Use(_)) => { self.bump("R13"); continue; }
+                Stmt::Item(Item::Fn(_)) if self.o.dropnested => { self.bump("R35"); continue; }
                 Stmt::Item(Item::Fn(f)) => cfg_of(&f.attrs),
                 Stmt::Item(Item::Const(f)) => cfg_of(&f.attrs),
                 Stmt::Expr(e, _) => cfg_of(expr_attrs(e)),
@@ -510,6 +517,48 @@ impl VisitMut for Rw {
                         }
                     }
                 }
+            }
+        }
+        // R34: `E.fold(INIT, |acc, item| BODY)` -> the definition of Iterator::fold:
+        //      `{ let mut __acc = INIT; let mut __it = E; loop { match __it.next() { Some(item) => { let acc = __acc; __acc = BODY; } None => { break; } } } __acc }`
+        if let Expr::MethodCall(mc) = e {
+            // (receiver = a plain iterator VALUE, e.g. a generic `I: Iterator` parameter; folds over `X.iter()` of a collection are R10)
+            if mc.method == "fold" && mc.args.len() == 2 && matches!(*mc.receiver, Expr::Path(_)) {
+                if let Expr::Closure(c) = &mc.args[1] {
+                    if c.inputs.len() == 2 {
+                        let recv = (*mc.receiver).clone(); let init = mc.args[0].clone();
+                        let acc = c.inputs[0].clone(); let item = c.inputs[1].clone(); let body = (*c.body).clone();
+                        self.bump("R34");
+                        let mut ne: Expr = parse_quote!({ let mut __acc = #init; let mut __it = #recv; loop { match __it.next() { Some(#item) => { let #acc = __acc; __acc = #body; } None => { break; } } } __acc });
+                        self.visit_expr_mut(&mut ne);
+                        *e = ne;
+                        return;
+                    }
+                }
+            }
+        }
+        // R36: `X.iter().filter(P)` -> `shim_filter(&X, P)`; R37: `E.max_by_key(K)` -> `shim_max_by_key(E, K)` (one shim each with the documented
+        //      semantics of the std adapter; provided trait methods cannot be given an assume_specification)
+        if let Expr::MethodCall(mc) = e {
+            if mc.method == "filter" && mc.args.len() == 1 && matches!(mc.args[0], Expr::Closure(_)) {
+                if let Expr::MethodCall(m2) = &*mc.receiver {
+                    if m2.method == "iter" && m2.args.is_empty() {
+                        let x = (*m2.receiver).clone(); let f = mc.args[0].clone();
+                        self.bump("R36");
+                        let mut ne: Expr = parse_quote!(shim_filter(&#x, #f));
+                        if let Expr::Call(call) = &mut ne { for a in call.args.iter_mut() { if matches!(a, Expr::Closure(_)) { self.closure_label = Some("filter".to_string()); } self.visit_expr_mut(a); self.closure_label = None; } }
+                        *e = ne;
+                        return;
+                    }
+                }
+            }
+            if mc.method == "max_by_key" && mc.args.len() == 1 {
+                let x = (*mc.receiver).clone(); let f = mc.args[0].clone();
+                self.bump("R37");
+                let mut ne: Expr = parse_quote!(shim_max_by_key(#x, #f));
+                if let Expr::Call(call) = &mut ne { for a in call.args.iter_mut() { if matches!(a, Expr::Closure(_)) { self.closure_label = Some("max_by_key".to_string()); } self.visit_expr_mut(a); self.closure_label = None; } }
+                *e = ne;
+                return;
             }
         }
         // R33: `X.split(C).map(F).collect::<Option<Vec<_>>>()` -> `split_map_collect_opt(&X, C, F)` (one shim with the semantics of the chain:
@@ -932,6 +981,14 @@ fn find(items: &[Item], sel: &[&str]) -> Result<Found, String> {
                                 if matches!(cfg_of(&f.attrs), CfgDecision::Drop) { continue; }
                                 if seen == nth {
                                     let assoc: Vec<(String, Type)> = imp.items.iter().filter_map(|x| if let ImplItem::Type(t) = x { Some((t.ident.to_string(), t.ty.clone())) } else { None }).collect();
+                                    // `impl T :: fn f :: nested fn g`: the fn item g declared inside f's body
+                                    if let Some(nsel) = sel.get(2) {
+                                        let w: Vec<&str> = nsel.split_whitespace().collect();
+                                        if w.len() == 3 && w[0] == "nested" && w[1] == "fn" {
+                                            for st in &f.block.stmts { if let Stmt::Item(Item::Fn(nf)) = st { if nf.sig.ident == w[2] { return Ok(Found::Fn(nf.sig.clone(), (*nf.block).clone(), syn::Visibility::Inherited, vec![])); } } }
+                                            return Err(format!("nested fn {} not found in {}", w[2], fsel[1]));
+                                        }
+                                    }
                                     return Ok(Found::Fn(f.sig.clone(), f.block.clone(), f.vis.clone(), assoc));
                                 }
                                 seen += 1;
@@ -1405,6 +1462,40 @@ fn emit_fn(key: &str, file: &str, mut sig: syn::Signature, mut block: syn::Block
         an.visit_block_mut(&mut block);
     }
     rw.visit_block_mut(&mut block);
+    if o.anf {
+        fn anf_expr(e: &mut Expr, lets: &mut Vec<Stmt>, k: &mut usize) {
+            let args = match e { Expr::Call(c) => Some(&mut c.args), Expr::MethodCall(m) => Some(&mut m.args), _ => None };
+            if let Some(args) = args {
+                for a in args.iter_mut() {
+                    let hoist = match &*a {
+                        Expr::Call(_) | Expr::MethodCall(_) | Expr::Closure(_) => true,
+                        Expr::Macro(m) => m.mac.path.get_ident().map(|i| i.to_string().starts_with("__verif_closure_")).unwrap_or(false),
+                        _ => false,
+                    };
+                    if hoist {
+                        anf_expr(a, lets, k);
+                        let id = format_ident!("__a{}", *k); *k += 1;
+                        let init = a.clone();
+                        // a let-bound closure loses the expected `Fn(&X) -> Y` signature its call site gave it (needed for closures that
+                        // return a reference): it is passed through the identity `__fn1`, which restates exactly that bound
+                        let is_closure = !matches!(init, Expr::Call(_) | Expr::MethodCall(_));
+                        if is_closure { lets.push(parse_quote!(let #id = __fn1(#init);)); } else { lets.push(parse_quote!(let #id = #init;)); }
+                        *a = parse_quote!(#id);
+                    }
+                }
+            }
+        }
+        if let Some(Stmt::Expr(tail, None)) = block.stmts.last().cloned() {
+            let mut tail = tail; let mut lets: Vec<Stmt> = vec![]; let mut k = 0usize;
+            anf_expr(&mut tail, &mut lets, &mut k);
+            if !lets.is_empty() {
+                for _ in 0..lets.len() { rw.bump("R38"); }
+                block.stmts.pop();
+                block.stmts.extend(lets);
+                block.stmts.push(Stmt::Expr(tail, None));
+            }
+        }
+    }
     // anchors after every top-level statement (not after the tail expression)
     {
         let n = block.stmts.len();
@@ -1547,6 +1638,10 @@ fn emit_item(key: &str, file: &str, mut it: Item, _o: &Opts) {
     println!("@@ITEM {key}");
     println!("@@META file={file} line_start={start} line_end={end} loops=0 closures=0 rewrites=R8:1 derives={}", derives.join(";").replace(' ', ""));
     println!("@@TEXT");
+    if _o.copy {
+        let d = derives.join(",");
+        if d.contains("Copy") && d.contains("Clone") { println!("#[derive(Clone, Copy)]"); } else { println!("@@UNSUPPORTED copy requested but the item does not derive Clone and Copy"); }
+    }
     if _o.structural {
         let d = derives.join(",");
         if d.contains("PartialEq") { println!("#[derive(Structural, PartialEq, Eq)]"); } else { println!("@@UNSUPPORTED structural requested but the item does not derive PartialEq"); }
